@@ -10,6 +10,9 @@ Obligations on every path: the program body is reached (run returns) iff the run
 then nothing was printed; otherwise exactly one print happened, to stdout with exit status 0 for
 help/version/completion and to stderr with exit status 1 for a parse failure.
 ParseFailure::exit_code is additionally checked on all three variants directly.
+Grammar fu (fallback_to_usage, no version): a stdout outcome for a line that holds an item and whose
+named items cannot all be the help flag is a violation (the usage text answers the empty line only; a
+line holding nothing but `--` counts as empty, bpaf pre-consumes the separator).
 
 NOT decided here (outside symbolic execution): that a *real child process* behaves like run_inner
 (OS argv, non-UTF-8 through execve, argv[0] -> application name) and that messages are non-empty.
@@ -24,7 +27,7 @@ from . import tok
 from .corpus import CORPUS
 
 PROP = "C11"
-GRAMMARS = ["g1", "c1", "h1", "p1"]
+GRAMMARS = ["g1", "c1", "h1", "p1", "fu"]
 
 
 def models_for(ex_holder):
@@ -92,6 +95,19 @@ def run_run_job(job, build):
                     bad = "a parse failure was printed to stdout"
                 if stream == "stderr" and helpish and not rendered_err:
                     bad = "help was printed to stderr"
+                if stream == "stdout" and getattr(g, "usage_fallback", False) and any(w.form != "dd" for w in words):
+                    # fu has no version and the default help names: stdout is legitimate only when some word asks for help;
+                    # fallback_to_usage answers lines without any item (besides the separator) only
+                    nohelp = []
+                    for w in words:
+                        if w.form in ("short", "short=", "shortv"):
+                            nohelp.append(w.name != ord("h"))
+                        elif w.form in ("long", "long="):
+                            nohelp.append(w.name != ex.intern("help"))
+                    cond = z3.And(*nohelp) if nohelp else z3.BoolVal(True)
+                    if ex.check(cond) == z3.sat:
+                        ex.solver.add(cond)
+                        bad = "help / usage on stdout with exit 0 for a non-empty line that does not ask for help (fallback_to_usage applies to the empty line only)"
         else:
             cls = "panic"
             bad = "panic in run(): %r" % (r.info,)
